@@ -432,6 +432,19 @@ pub fn nested_candidates(point: Point, top: Ev, before: &Snap, max_len: usize) -
             for c in &inflight {
                 out.push(vec![Ev::Complete(*c)]);
             }
+            // a graceful stop is handled by the server task and by the worker while the accept thread
+            // sits between the send and its bookkeeping (the forced variant would need the accept
+            // loop, which is mid-step, to be joined)
+            let graceful_stop_pending = !before.log.iter().any(|(_, _, r)| matches!(r, Rec::StopProcessed))
+                && (before.cmds.iter().any(|(k, done, _)| *k == Ev::Stop(true) && !*done) || before.log.iter().any(|(_, _, r)| matches!(r, Rec::SignalSent(15))))
+                && !before.cmds.iter().any(|(k, _, _)| *k == Ev::Stop(false))
+                && !before.log.iter().any(|(_, _, r)| matches!(r, Rec::SignalSent(2) | Rec::SignalSent(3)));
+            if max_len >= 3 && graceful_stop_pending {
+                if let Some(slot) = slot_of(idx) {
+                    out.push(vec![Ev::WorkerTurn(slot), Ev::ServerTurn, Ev::WorkerTurn(slot)]);
+                    out.push(vec![Ev::ServerTurn, Ev::WorkerTurn(slot)]);
+                }
+            }
         }
         Point::AfterStopWake => {
             // the accept loop handles Stop (and exits, closing every worker's connection channel)
